@@ -598,6 +598,10 @@ func (p *Prog) nanInfExcluded(fn *ssa.Function, sp *ssa.Parameter, flag *ssa.Glo
 							for k := range sum {
 								es[k] = true
 							}
+							// the predicate may scan a table of spellings: false means unequal to every entry
+							for _, k := range p.tableScanExclusions(h) {
+								es[k] = true
+							}
 						}
 					}
 				}
@@ -1428,4 +1432,106 @@ func (p *Prog) escapeTableVar() string {
 	}
 	p.facts["esctabvar"] = name
 	return name
+}
+
+// tableScanExclusions: h(s) is `lower := strings.ToLower(s); for _, lit := range T { if lower == lit { return true } }; return false`
+// over a package-level array T of constant strings that only its initialiser writes: a false answer means the folded input
+// differs from every entry. Returns the entries (nil if h is not of that form).
+func (p *Prog) tableScanExclusions(h *ssa.Function) []string {
+	key := fmt.Sprintf("tabscan:%p", h)
+	if v, ok := p.facts[key]; ok {
+		return v.([]string)
+	}
+	var out []string
+	p.facts[key] = out
+	if len(h.Params) != 1 || !isStringType(h.Params[0].Type()) {
+		return nil
+	}
+	var tab *ssa.Global
+	var eq *ssa.BinOp
+	okForm := true
+	eachInstr(h, func(b *ssa.BasicBlock, in ssa.Instruction) {
+		bo, ok := in.(*ssa.BinOp)
+		if !ok || bo.Op != token.EQL || !isStringType(bo.X.Type()) {
+			return
+		}
+		side := func(v ssa.Value) *ssa.Global {
+			// an element of the array value itself: (*T)[i]
+			if ix, isIx := v.(*ssa.Index); isIx && isRangeIndex(ix.Index) {
+				return globalOf(ix.X)
+			}
+			u, ok := v.(*ssa.UnOp)
+			if !ok {
+				return nil
+			}
+			ia, ok := u.X.(*ssa.IndexAddr)
+			if !ok || !isRangeIndex(ia.Index) {
+				return nil
+			}
+			if g, ok := ia.X.(*ssa.Global); ok {
+				return g
+			}
+			return globalOf(ia.X)
+		}
+		folded := func(v ssa.Value) bool {
+			c, ok := v.(*ssa.Call)
+			return ok && isCallTo(&c.Call, "strings.ToLower") && c.Call.Args[0] == ssa.Value(h.Params[0])
+		}
+		switch {
+		case side(bo.Y) != nil && folded(bo.X):
+			tab, eq = side(bo.Y), bo
+		case side(bo.X) != nil && folded(bo.Y):
+			tab, eq = side(bo.X), bo
+		}
+	})
+	if tab == nil || eq == nil || !p.stableGlobal(tab) {
+		return nil
+	}
+	eachInstr(h, func(b *ssa.BasicBlock, in ssa.Instruction) {
+		ret, ok := in.(*ssa.Return)
+		if !ok || len(ret.Results) != 1 {
+			return
+		}
+		bv, isC := constBool(ret.Results[0])
+		if !isC {
+			okForm = false
+			return
+		}
+		if bv {
+			under := false
+			for _, g := range dominatingGuards(b) {
+				if g.Cond == ssa.Value(eq) && g.Pol {
+					under = true
+				}
+			}
+			if !under {
+				okForm = false
+			}
+		}
+	})
+	if !okForm {
+		return nil
+	}
+	for _, f := range p.allFuncsWithInit() {
+		eachInstr(f, func(b *ssa.BasicBlock, in ssa.Instruction) {
+			st, ok := in.(*ssa.Store)
+			if !ok {
+				return
+			}
+			ia, ok := st.Addr.(*ssa.IndexAddr)
+			if !ok || ia.X != ssa.Value(tab) {
+				return
+			}
+			if sv, isS := constString(st.Val); isS {
+				out = append(out, sv)
+			} else {
+				okForm = false
+			}
+		})
+	}
+	if !okForm || len(out) == 0 {
+		return nil
+	}
+	p.facts[key] = out
+	return out
 }
